@@ -105,7 +105,7 @@ Definition read_dir (st : kv) (h : handle) (n : Z) : kv * handle * list (str * N
     | inl names =>
       let total := Z.of_nat (length names) in
       let '(s, e, eof) :=
-        if (n <=? 0)%Z then (0%Z, total, false)
+        if (n <=? 0)%Z then (Z.min (h_off h1) total, total, false)   (* the entries that remain *)
         else if (total <=? h_off h1)%Z then (0%Z, 0%Z, true)
         else (h_off h1, Z.min (h_off h1 + n) total, false) in
       if eof then (st1, h1, [], Some (Bare EEOF))
